@@ -195,6 +195,19 @@ def check(case, ctx):
         out = call(lambda: np.asarray(ahrs.QuaternionArray(DCM=R3.copy(), method=gens.spell(m, k_sp + 2), **kw)))
         if ctx.returned(out, route=r):
             judge(ctx, r, m, out.value, R, theta, shape=(len(R3), 4))
+        if np.all(R == np.round(R)):          # whole-number matrices (the cube rotations) typed as integers, one and a stack of them
+            Ri = np.round(np.array([R, R.T, R @ R])).astype(int)
+            for r, fi, ff in (("QuaternionArray(DCM=)/" + mn, lambda: np.asarray(ahrs.QuaternionArray(DCM=Ri.copy(), method=m, **kw)), lambda: np.asarray(ahrs.QuaternionArray(DCM=Ri.astype(float), method=m, **kw))),
+                              ("Quaternion(dcm=)/" + mn, lambda: np.asarray(ahrs.Quaternion(dcm=Ri[0].copy(), method=m, **kw)), lambda: np.asarray(ahrs.Quaternion(dcm=Ri[0].astype(float), method=m, **kw))),
+                              ("free/" + mn, lambda: np.asarray(free[m](Ri[0].copy(), **kw)), lambda: np.asarray(free[m](Ri[0].astype(float), **kw)))):
+                of = call(ff)
+                if not of.ok:
+                    continue        # (the float call itself fails: judged above, or outside the method's domain)
+                oi = call(fi)
+                if ctx.returned(oi, clause="no-exception[integer-typed matrices]", route=r):
+                    a_i, a_f = np.asarray(oi.value, float), np.asarray(of.value, float)
+                    same = a_i.shape == a_f.shape and (np.array_equal(a_i, a_f, equal_nan=True) or float(np.nanmax(np.minimum(np.abs(a_i - a_f), np.abs(a_i + a_f)))) <= 1e-15)
+                    ctx.ok("whole-number matrices typed as integers give the quaternions of the same matrices typed as floats", bool(same), {"int": a_i, "float": a_f}, route=r)
         r = "free/" + mn
         out = call(lambda: free[m](R.copy(), **kw))
         if ctx.returned(out, route=r):
